@@ -3,7 +3,7 @@ package util
 //verif:dir internal/util
 //verif:stub os.Lstat = c26Lstat
 //verif:stub path/filepath.EvalSymlinks = c26EvalSymlinks
-//verif:bound program-supplied path: arbitrary bytes over {/ . a b}, len<=6 (quick) / <=7 (thorough); sandbox root /sb; model file system with directories / /sb /sb/a /etc /etc/a and one symbolic link /sb/b whose target is chosen among {absent, /sb/a, /etc, .., ../etc, a}
+//verif:bound program-supplied path: arbitrary bytes over {/ . a b}, len<=6 (quick) / <=7 (thorough); sandbox root /a (so that absolute spellings inside the root are within the alphabet); model file system with directories / /a /a/a /b /b/a and one symbolic link /a/b whose target is chosen among {absent, /a/a, /b, .., ../b, a}
 //verif:assume path/filepath Clean/Join/Rel/Dir run from source; symbolic-link resolution follows the model's resolver (component-wise, absolute and relative targets)
 //verif:outside that every runtime file function routes its path through SandboxJoin (a call-site census); races between the check and the later use of the path; deeper link chains
 
@@ -16,11 +16,11 @@ import (
 	sym "github.com/tucats/ego/internal/zzverif/sym"
 )
 
-const c26Root = "/sb"
+const c26Root = "/a"
 
 var (
-	c26Dirs  = map[string]bool{"/": true, "/sb": true, "/sb/a": true, "/etc": true, "/etc/a": true}
-	c26Link  string // target of the symbolic link /sb/b ("" = /sb/b does not exist)
+	c26Dirs  = map[string]bool{"/": true, "/a": true, "/a/a": true, "/b": true, "/b/a": true}
+	c26Link  string // target of the symbolic link /a/b ("" = /a/b does not exist)
 	errC26NE = errors.New("no such file or directory")
 )
 
@@ -39,7 +39,7 @@ func c26Resolve(p string, depth int) (string, error) {
 	}
 	for _, comp := range strings.Split(p[1:], "/") {
 		next := filepath.Join(res, comp)
-		if next == "/sb/b" && c26Link != "" {
+		if next == "/a/b" && c26Link != "" {
 			t := c26Link
 			if !strings.HasPrefix(t, "/") {
 				t = filepath.Join(res, t)
@@ -61,10 +61,10 @@ func c26Resolve(p string, depth int) (string, error) {
 
 func c26Exists(p string) bool {
 	p = filepath.Clean(p)
-	if p == "/sb/b" {
+	if p == "/a/b" {
 		return c26Link != ""
 	}
-	if strings.HasPrefix(p, "/sb/b/") {
+	if strings.HasPrefix(p, "/a/b/") {
 		_, err := c26Resolve(p, 0)
 		return err == nil
 	}
@@ -112,7 +112,7 @@ func VerifC26_pathsStayInsideTheSandbox() {
 		c26Native(n)
 		return
 	}
-	c26Link = []string{"", "/sb/a", "/etc", "..", "../etc", "a"}[sym.Choice("link", 6)]
+	c26Link = []string{"", "/a/a", "/b", "..", "../b", "a"}[sym.Choice("link", 6)]
 	p := sym.String("path", n)
 	for i := 0; i < len(p); i++ {
 		sym.Assume(p[i] == '/' || p[i] == '.' || p[i] == 'a' || p[i] == 'b')
@@ -126,7 +126,7 @@ func VerifC26_pathsStayInsideTheSandbox() {
 
 // c26Native replays against a real directory tree with a real symbolic link.
 func c26Native(n int) {
-	link := []string{"", "/sb/a", "/etc", "..", "../etc", "a"}[sym.Choice("link", 6)]
+	link := []string{"", "/a/a", "/b", "..", "../b", "a"}[sym.Choice("link", 6)]
 	p := sym.String("path", n)
 	base, err := os.MkdirTemp("", "c26-")
 	if err != nil {
@@ -134,15 +134,18 @@ func c26Native(n int) {
 	}
 	defer os.RemoveAll(base)
 	base, _ = filepath.EvalSymlinks(base)
-	root := filepath.Join(base, "sb")
+	root := filepath.Join(base, "a")
 	os.MkdirAll(filepath.Join(root, "a"), 0o755)
-	os.MkdirAll(filepath.Join(base, "etc", "a"), 0o755)
+	os.MkdirAll(filepath.Join(base, "b", "a"), 0o755)
 	if link != "" {
 		t := link
 		if strings.HasPrefix(t, "/") {
 			t = filepath.Join(base, t)
 		}
 		os.Symlink(t, filepath.Join(root, "b"))
+	}
+	if strings.HasPrefix(p, "/") {
+		p = base + p // an absolute path of the model lives under the temporary base directory
 	}
 	out := SandboxJoin(root, p)
 	sym.Observe("out", strings.Replace(out, base, "", 1))
